@@ -102,7 +102,8 @@ let run (lines : string list) =
                  | None -> (CC_ERR_OUT_OF_RANGE, None)
                  | Some x ->
                      (* among the maximal elements remove the one the model returned when that is a legal choice *)
-                     let chosen = (match v with
+                     let removed = (match v with Some _ -> v | None -> (match ok (pq_top s) with (CC_OK, t) -> t | _ -> None)) in
+                     let chosen = (match removed with
                        | Some mv when List.exists (fun y -> ucmp y mv = 0) !bag && is_max mv !bag -> mv
                        | _ -> x) in
                      bag := remove1 chosen !bag;
